@@ -179,6 +179,9 @@ class Run:
         # a broken proof / correspondence with no concrete failing input found
         if self.broken and not any(not ni for _p, ni in self.violations):
             self.violation({'broken': self.broken, 'log_tail': self.proof_log[-3000:],
+                            # where model and implementation differ (inputs on which the correspondence broke)
+                            'disagreements': [s_ for s_ in self.coverage['samples'] if isinstance(s_, dict) and
+                                              any('disagreement' in k for k in s_)][:3],
                             'explanation': 'the property is no longer shown to hold: the named '
                             'theorem / translator fact / correspondence layer no longer checks, '
                             'and the search found no concrete failing input'}, no_input=True)
